@@ -516,7 +516,7 @@ func runRealWS(c RealWSCase) vkit.Result {
 	var tr net.Conn
 	select {
 	case tr = <-wsAccepted:
-	case <-time.After(20 * time.Second):
+	case <-time.After(vkit.WaitCeiling):
 		return vkit.Failf("upgrade did not complete")
 	}
 	defer tr.Close()
